@@ -216,6 +216,7 @@ func check(which, tier string, dump bool) (code int) {
 						}
 					}()
 					p.Run(ctx)
+					rules.Round3Generic(ctx, id)
 				}()
 			}
 		}
